@@ -379,7 +379,9 @@ def step (s : St) : Ev → Option St
         if s.bc.closed c then some (setTs s t th (.cHead k)) else some (setTs s t th (.awRet none k v .canceled))
       | _ => none
     | none => none
-  | .quiesce _ B => if quiescent s ∧ B = pendingIds s then some s else none
+  | .quiesce busy B =>
+    -- a quiescent state has no enabled step, so nothing can burn CPU while awaiters are blocked
+    if quiescent s ∧ B = pendingIds s ∧ (busy = false ∨ B = []) then some s else none
 
 def model : OLTS St Ev Obs where
   init := {}
